@@ -79,6 +79,8 @@ func (e *Engine) RunStepImpl(c *dom.Ctx, mode StepMode) *ImplSummary {
 	in := absint.New(e.P, c, tr)
 	in.AddSymbolicRoot("cpu", "")
 	st := e.SeedInterp(in)
+	in.Sites = map[ssa.Instruction]*absint.SiteLog{}
+	e.Preconditions(in)
 	paths, widths := e.IntLeaves()
 	if mode.IM0Data != nil {
 		imType, _ := e.ConstValue("IMType")
@@ -98,6 +100,12 @@ func (e *Engine) RunStepImpl(c *dom.Ctx, mode StepMode) *ImplSummary {
 				return nil, nil, false
 			}
 			memv := in.Load(st, &absint.Ptr{Root: "cpu", Path: isa.DevMem, Nil: bdd.False}, e.leafByP[isa.DevMem].Type, 0)
+			// a memory object built below Step (the mode-0 overlay): probe its
+			// methods with arbitrary arguments under the current path
+			// condition, so that their index/nil sites get a value-based verdict
+			if iv, ok := memv.(*absint.Iface); ok && iv.Sym == "" && iv.Conc != nil {
+				e.probeMethods(in, iv, guard, st)
+			}
 			desc := absint.DescribeValue(c, memv)
 			if iv, ok := memv.(*absint.Iface); ok && iv.Sym != "" && iv.Nil != bdd.True {
 				desc = iv.Sym
@@ -134,7 +142,7 @@ func (e *Engine) RunStepImpl(c *dom.Ctx, mode StepMode) *ImplSummary {
 	}
 	in.Assume, in.HasAssume = mode.Assume, mode.HasAssume
 	_, out, err := in.Run(e.Step, []absint.Value{&absint.Ptr{Root: "cpu", Nil: bdd.False}}, st)
-	s := &ImplSummary{Err: err, Instrs: in.Instrs}
+	s := &ImplSummary{Err: err, Instrs: in.Instrs, Sites: in.Sites}
 	s.C, s.Trace = c, tr
 	for fn := range in.Funcs {
 		s.Funcs = append(s.Funcs, fn.String())
@@ -231,4 +239,24 @@ func (e *Engine) RunIM0Ref(c *dom.Ctx, data []dom.BV) (*RefSummary, bool) {
 	}
 	r.Other = map[string]absint.Value{"Interrupt": &absint.Ptr{Nil: bdd.True}}
 	return r, true
+}
+
+// probeMethods runs every method of a concrete interface value with fresh
+// symbolic arguments on a copy of the state; only the site log is kept.
+func (e *Engine) probeMethods(in *absint.Interp, iv *absint.Iface, guard bdd.Node, st *absint.State) {
+	ms := e.P.Prog.MethodSets.MethodSet(iv.ConcType)
+	saved := in.T
+	defer func() { in.T = saved }()
+	for i := 0; i < ms.Len(); i++ {
+		fn := e.P.Prog.MethodValue(ms.At(i))
+		if fn == nil || fn.Blocks == nil || !load.InModule(fn) {
+			continue
+		}
+		in.T = dom.NewTrace(in.C)
+		args := []absint.Value{iv.Conc}
+		for j, p := range fn.Params[1:] {
+			args = append(args, in.SymbolicValue(p.Type(), fmt.Sprintf("probe.%s.arg%d", fn.Name(), j)))
+		}
+		in.Probe(fn, args, guard, st.Clone())
+	}
 }
